@@ -1,1 +1,205 @@
-//! (module to be written)
+//! Stack-of-snapshots model of TeX grouping (C01, C20).
+//!
+//! TeX §268-§284: every assignment is either local (undone by the matching end of group) or global
+//! (survives every enclosing group). TeX implements this with a save stack that records old
+//! values (`eq_save` §279, `eq_define` §277, `geq_define` §279, `unsave` §281-§283). The model here is
+//! the *definition* those sections implement, with no save stack at all:
+//!
+//! * the state is a stack of complete key -> value maps ("snapshots"); `levels[0]` is what is
+//!   visible with no group open, the last level is what is visible now;
+//! * `begin_group` (§274 `new_save_level`) pushes a copy of the top level;
+//! * a local assignment (§277 `eq_define`) writes the top level only;
+//! * a global assignment (§279 `geq_define`) writes **every** level (so the value survives every
+//!   `unsave`, and every value saved for that key is forgotten - §283 "if the level is level_one
+//!   the saved value is destroyed" is the save-stack way of saying the same thing);
+//! * `end_group` (§281 `unsave`) pops the top level; with no group open it is an error and nothing
+//!   changes (TeX: "Extra }" §1069, the container: `Err(NoGroupToEndError)`).
+//!
+//! `\globaldefs` (§1211 / §1214): if positive every assignment is global, if negative every assignment is local,
+//! whatever prefix was given; `effective_scope` applies that rule.
+//!
+//! Generic over key and value so that C20 (container keys/values) and C01 (VM variables with
+//! their printed values) can both use it. A value that "does not exist" is simply an absent key;
+//! C01 models "undefined" by using `Option` values or `remove_*` below.
+
+use std::collections::BTreeMap;
+
+#[derive(Clone, Copy, PartialEq, Eq, Debug, Hash, PartialOrd, Ord)]
+pub enum Scope {
+    Local,
+    Global,
+}
+
+/// §1214: `if global_defs<>0 then if global_defs<0 then (a>=4 => a:=a-4) else (a<4 => a:=a+4)`.
+pub fn effective_scope(requested: Scope, globaldefs: i64) -> Scope {
+    if globaldefs > 0 {
+        Scope::Global
+    } else if globaldefs < 0 {
+        Scope::Local
+    } else {
+        requested
+    }
+}
+
+/// Returned by `end_group` when no group is open.
+#[derive(Clone, Copy, PartialEq, Eq, Debug)]
+pub struct NoGroupToEnd;
+
+#[derive(Clone, PartialEq, Eq, Debug, Hash, PartialOrd, Ord)]
+pub struct ScopeModel<K: Ord + Clone, V: Clone> {
+    /// `levels[0]`: outside all groups; `levels.last()`: visible now. Never empty.
+    levels: Vec<BTreeMap<K, V>>,
+}
+
+impl<K: Ord + Clone, V: Clone> Default for ScopeModel<K, V> {
+    fn default() -> Self {
+        Self::new()
+    }
+}
+
+impl<K: Ord + Clone, V: Clone> ScopeModel<K, V> {
+    pub fn new() -> Self {
+        ScopeModel { levels: vec![BTreeMap::new()] }
+    }
+    /// A model whose outermost level already holds `init` (e.g. the VM's initial register values).
+    pub fn with_initial(init: BTreeMap<K, V>) -> Self {
+        ScopeModel { levels: vec![init] }
+    }
+    /// Number of open groups.
+    pub fn depth(&self) -> usize {
+        self.levels.len() - 1
+    }
+    pub fn begin_group(&mut self) {
+        let top = self.levels.last().unwrap().clone();
+        self.levels.push(top);
+    }
+    pub fn end_group(&mut self) -> Result<(), NoGroupToEnd> {
+        if self.levels.len() == 1 {
+            return Err(NoGroupToEnd);
+        }
+        self.levels.pop();
+        Ok(())
+    }
+    /// Assign. Returns whether the key had a visible value before the assignment.
+    pub fn insert(&mut self, k: K, v: V, scope: Scope) -> bool {
+        let existed = self.levels.last().unwrap().contains_key(&k);
+        match scope {
+            Scope::Local => {
+                self.levels.last_mut().unwrap().insert(k, v);
+            }
+            Scope::Global => {
+                for l in self.levels.iter_mut() {
+                    l.insert(k.clone(), v.clone());
+                }
+            }
+        }
+        existed
+    }
+    /// Assign under a `\globaldefs` setting (§1214).
+    pub fn insert_with_globaldefs(&mut self, k: K, v: V, requested: Scope, globaldefs: i64) -> bool {
+        self.insert(k, v, effective_scope(requested, globaldefs))
+    }
+    /// Make the key undefined in the given scope (C01: `\let\a=\undefined`-style assignments).
+    pub fn remove(&mut self, k: &K, scope: Scope) -> bool {
+        let existed = self.levels.last().unwrap().contains_key(k);
+        match scope {
+            Scope::Local => {
+                self.levels.last_mut().unwrap().remove(k);
+            }
+            Scope::Global => {
+                for l in self.levels.iter_mut() {
+                    l.remove(k);
+                }
+            }
+        }
+        existed
+    }
+    pub fn get(&self, k: &K) -> Option<&V> {
+        self.levels.last().unwrap().get(k)
+    }
+    pub fn len(&self) -> usize {
+        self.levels.last().unwrap().len()
+    }
+    pub fn is_empty(&self) -> bool {
+        self.levels.last().unwrap().is_empty()
+    }
+    /// What is visible now.
+    pub fn visible(&self) -> &BTreeMap<K, V> {
+        self.levels.last().unwrap()
+    }
+    /// All levels, outermost first.
+    pub fn levels(&self) -> &[BTreeMap<K, V>] {
+        &self.levels
+    }
+    /// What a sequence of `end_group` calls will make visible: the current level first, then each
+    /// enclosing level, ending with the outermost one.
+    pub fn drain(&self) -> Vec<BTreeMap<K, V>> {
+        self.levels.iter().rev().cloned().collect()
+    }
+    /// The value the key will have again after `n` groups have been closed (None: undefined then,
+    /// or fewer than `n` groups are open).
+    pub fn get_after_closing(&self, k: &K, n: usize) -> Option<&V> {
+        if n >= self.levels.len() {
+            return None;
+        }
+        self.levels[self.levels.len() - 1 - n].get(k)
+    }
+    /// Number of levels (including the current one) in which the key's value differs from the value
+    /// one level further out: 1 + how many times the current value is "shadowing" something.
+    /// Used by the collision counters of the checks.
+    pub fn shadow_depth(&self, k: &K) -> usize
+    where
+        V: PartialEq,
+    {
+        let mut n = 0;
+        for i in 1..self.levels.len() {
+            if self.levels[i].get(k) != self.levels[i - 1].get(k) {
+                n += 1;
+            }
+        }
+        n
+    }
+}
+
+#[cfg(test)]
+mod tests {
+    use super::*;
+
+    // tex.web §1214 and The TeXbook p.275 (\globaldefs).
+    #[test]
+    fn globaldefs() {
+        assert_eq!(effective_scope(Scope::Local, 1), Scope::Global);
+        assert_eq!(effective_scope(Scope::Global, -1), Scope::Local);
+        assert_eq!(effective_scope(Scope::Local, 0), Scope::Local);
+        assert_eq!(effective_scope(Scope::Global, 0), Scope::Global);
+    }
+
+    // §279 geq_define / §283: `\count1=1 {{\count1=3 \global\count1=2 }}\the\count1` gives 2 (DESIGN §4 D1 witness).
+    #[test]
+    fn global_survives_all_levels() {
+        let mut m: ScopeModel<u8, i32> = ScopeModel::new();
+        m.insert(1, 1, Scope::Local);
+        m.begin_group();
+        m.begin_group();
+        m.insert(1, 3, Scope::Local);
+        m.insert(1, 2, Scope::Global);
+        assert_eq!(m.end_group(), Ok(()));
+        assert_eq!(m.get(&1), Some(&2));
+        assert_eq!(m.end_group(), Ok(()));
+        assert_eq!(m.get(&1), Some(&2));
+        assert_eq!(m.end_group(), Err(NoGroupToEnd));
+        assert_eq!(m.get(&1), Some(&2));
+    }
+
+    #[test]
+    fn local_is_rolled_back() {
+        let mut m: ScopeModel<u8, i32> = ScopeModel::new();
+        m.begin_group();
+        assert!(!m.insert(3, 5, Scope::Local));
+        assert!(m.insert(3, 6, Scope::Local));
+        assert_eq!(m.shadow_depth(&3), 1);
+        m.end_group().unwrap();
+        assert_eq!(m.get(&3), None);
+        assert_eq!(m.len(), 0);
+    }
+}
